@@ -88,6 +88,8 @@ class Report:
         self.rules[rid] = {"statement": statement, "if_broken": breaks}
 
     def ob(self, rule, construct, ok, facts=None, expected=None, loc="", why="", cases=1, fact_key=None):
+        if ok is not None and not isinstance(ok, bool):
+            ok = bool(ok)
         state = DISCHARGED if ok is True else VIOLATED if ok is False else UNRECOGNISED
         o = Obligation(self.prop, rule, construct, state, facts, expected, loc, why, cases, fact_key)
         self.obligations.append(o)
